@@ -3,7 +3,7 @@
 mkdir -p /tmp/ingest_logs/locks
 while true; do
   did=0
-  for m in /tmp/seedwork/C*/seed_out/*/meta.json; do
+  for m in /tmp/seedwork/C*/seed_out/*/meta.json /tmp/seedwork2/C*/seed_out/*/meta.json; do
     [ -f "$m" ] || continue
     d=$(dirname "$m"); n=$(basename "$d"); p=$(basename $(dirname $(dirname "$d")))
     [ -f "$d/patch.diff" ] && [ -f "$d/demo.py" ] || continue
@@ -12,7 +12,7 @@ while true; do
     grep -q "\"$p\"" /verif/tools/manifest_data.py || continue
     mkdir /tmp/ingest_logs/locks/$p-$n 2>/dev/null || continue
     echo "$(date +%H:%M) ingesting $p-$n" >> /tmp/ingest_logs/daemon.log
-    /verif/tools/ingest_seed.py $p $n --procs 8 > "$log.tmp" 2>&1
+    /verif/tools/ingest_seed.py $p $n --src "$d" --procs 8 > "$log.tmp" 2>&1
     mv "$log.tmp" "$log"
     did=1
   done
